@@ -477,16 +477,8 @@ func (d *TD) playHandBots() string {
 	}
 	dl := time.Now().Add(20 * time.Second)
 	opened := false
-	tick := 0
 	for time.Now().Before(dl) {
 		st := d.table().State
-		tick++
-		if d.sc.Seed%2 == 0 && tick%6 == 0 && len(st.PlayerStates) > 0 && st.Status == pt.TableStateStatus_TableGamePlaying {
-			// a table-level event in the middle of the hand: the same hand state is published again with a higher table
-			// serial (an add-on of nothing changes no chips)
-			p := st.PlayerStates[d.rng.Intn(len(st.PlayerStates))]
-			d.te.PlayerRedeemChips(pt.JoinPlayer{PlayerID: p.PlayerID, RedeemChips: 0, Seat: -1})
-		}
 		if st.GameCount > gc0 {
 			opened = true
 			if st.Status == pt.TableStateStatus_TableGameStandby || st.Status == pt.TableStateStatus_TablePausing {
